@@ -1,4 +1,8 @@
+#![allow(unreachable_patterns)]
 //! Build-independent canonical form of everything the crate returns.
+//! (Every `match` on a public enum of the crate ends in a wildcard arm, so that a variant ADDED to the
+//! crate — e.g. a decoder wired in for a new message type — is an observable value, not a build
+//! failure of the harness.)
 //!
 //! Only the public API is touched (pub fields, slices, `.as_str()`, public constructors). Enumerated
 //! values are mapped back to ITU codes through reverse maps written HERE (`match` on the crate's
@@ -113,6 +117,7 @@ pub fn rev_nav_status(s: &NavigationStatus) -> u64 {
         Reserved03 => 13,
         AisSartIsActive => 14,
         Unknown(v) => CARRIER + *v as u64,
+        _ => 99 * CARRIER,
     }
 }
 
@@ -121,6 +126,7 @@ pub fn rev_maneuver(m: &ManeuverIndicator) -> u64 {
         ManeuverIndicator::NoSpecialManeuver => 1,
         ManeuverIndicator::SpecialManeuver => 2,
         ManeuverIndicator::Unknown(v) => CARRIER + *v as u64,
+        _ => 99 * CARRIER,
     }
 }
 
@@ -136,6 +142,7 @@ pub fn rev_epfd(e: &EpfdType) -> u64 {
         Surveyed => 7,
         Galileo => 8,
         Unknown(v) => CARRIER + *v as u64,
+        _ => 99 * CARRIER,
     }
 }
 
@@ -202,6 +209,7 @@ pub fn rev_ship(s: &ShipType) -> u64 {
         OtherHazardousCategoryD => 94,
         OtherReserved(v) => 9 * CARRIER + *v as u64,
         OtherNoAdditionalInformation => 99,
+        _ => 99 * CARRIER,
     }
 }
 
@@ -240,6 +248,7 @@ pub fn rev_navaid(n: &NavaidType) -> u64 {
         SpecialMark => 30,
         LightVesselOrLanbyOrRigs => 31,
         Unknown(v) => CARRIER + *v as u64,
+        _ => 99 * CARRIER,
     }
 }
 
@@ -250,6 +259,7 @@ pub fn rev_sync(s: &SyncState) -> u64 {
         SyncState::BaseStation => 2,
         SyncState::NumberOfReceivedStations => 3,
         SyncState::Unknown(v) => CARRIER + *v as u64,
+        _ => 99 * CARRIER,
     }
 }
 
@@ -257,24 +267,28 @@ pub fn rev_dte(d: &Dte) -> u64 {
     match d {
         Dte::Ready => 0,
         Dte::NotReady => 1,
+        _ => 99 * CARRIER,
     }
 }
 pub fn rev_acc(a: &Accuracy) -> u64 {
     match a {
         Accuracy::Unaugmented => 0,
         Accuracy::Dgps => 1,
+        _ => 99 * CARRIER,
     }
 }
 pub fn rev_assigned(a: &AssignedMode) -> u64 {
     match a {
         AssignedMode::Autonomous => 0,
         AssignedMode::Assigned => 1,
+        _ => 99 * CARRIER,
     }
 }
 pub fn rev_cs(c: &CarrierSense) -> u64 {
     match c {
         CarrierSense::Sotdma => 0,
         CarrierSense::CarrierSense => 1,
+        _ => 99 * CARRIER,
     }
 }
 
@@ -338,6 +352,7 @@ pub fn rot_raw(r: &Option<RateOfTurn>) -> Val {
                         None => v == 0,
                         Some(Direction::Starboard) => v > 0,
                         Some(Direction::Port) => v < 0,
+                        _ => false,
                     };
                     let rate_ok = match r.rate() {
                         None => v == 127 || v == -127,
@@ -382,6 +397,7 @@ pub fn radio(out: &mut Fields, r: &RadioStatus) {
                     out.push((f("radio.sub"), Val::T("received_stations")));
                     out.push((f("radio.sub.value"), Val::I(*v as i64)));
                 }
+                _ => out.push((f("radio.sub"), Val::T("<unknown sub-message>"))),
             }
         }
         RadioStatus::Itdma(i) => {
@@ -391,6 +407,7 @@ pub fn radio(out: &mut Fields, r: &RadioStatus) {
             out.push((f("radio.num_slots"), Val::U(i.num_slots as u64)));
             out.push((f("radio.keep"), Val::B(i.keep)));
         }
+        _ => out.push((f("radio.kind"), Val::T("<unknown access scheme>"))),
     }
 }
 
@@ -417,6 +434,7 @@ pub fn variant_name(m: &AisMessage) -> &'static str {
         AisMessage::SafetyRelatedAcknowledgment(_) => "SafetyRelatedAcknowledgment",
         AisMessage::LongRangeAisBroadcastMessage(_) => "LongRangeAisBroadcastMessage",
         AisMessage::BinaryAddressedMessage(_) => "BinaryAddressedMessage",
+        _ => "<variant unknown to the harness>",
     }
 }
 
@@ -679,7 +697,7 @@ pub fn canon_msg(m: &AisMessage, out: &mut Fields) {
         AisMessage::StaticDataReport(p) => {
             hdr!(out, p);
             match &p.message_part {
-                MessagePart::PartA { vessel_name } => {
+                MessagePart::PartA { vessel_name, .. } => {
                     out.push((f("part"), Val::U(0)));
                     out.push((f("vessel_name"), Val::S(vessel_name.as_str().to_string())));
                 }
@@ -694,6 +712,7 @@ pub fn canon_msg(m: &AisMessage, out: &mut Fields) {
                     dimension_to_stern,
                     dimension_to_port,
                     dimension_to_starboard,
+                    ..
                 } => {
                     out.push((f("part"), Val::U(1)));
                     out.push((f("ship_type"), oe(ship_type, rev_ship)));
@@ -713,6 +732,7 @@ pub fn canon_msg(m: &AisMessage, out: &mut Fields) {
                 MessagePart::Unknown(v) => {
                     out.push((f("part"), Val::U(CARRIER + *v as u64)));
                 }
+                _ => out.push((f("part"), Val::U(99 * CARRIER))),
             }
         }
         AisMessage::LongRangeAisBroadcastMessage(p) => {
@@ -726,6 +746,7 @@ pub fn canon_msg(m: &AisMessage, out: &mut Fields) {
             out.push((f("course_over_ground"), of(&p.course_over_ground)));
             out.push((f("gnss_position_status"), Val::B(p.gnss_position_status)));
         }
+        _ => {}
     }
 }
 
@@ -762,11 +783,12 @@ pub enum ErrCat {
 impl ErrCat {
     pub fn from(e: &Error) -> ErrCat {
         match e {
-            Error::Nmea { msg } => ErrCat::Nmea(format!("{}", msg)),
-            Error::Checksum { expected, found } => ErrCat::Checksum {
+            Error::Nmea { msg, .. } => ErrCat::Nmea(format!("{}", msg)),
+            Error::Checksum { expected, found, .. } => ErrCat::Checksum {
                 expected: *expected,
                 found: *found,
             },
+            _ => ErrCat::Nmea("<error variant unknown to the harness>".to_string()),
         }
     }
     /// Category digest: message texts legitimately differ between builds.
@@ -804,6 +826,7 @@ pub fn talker_str(t: &TalkerId) -> &'static str {
         TalkerId::BS => "BS",
         TalkerId::SA => "SA",
         TalkerId::Unknown => "??",
+        _ => "<talker unknown to the harness>",
     }
 }
 
@@ -812,6 +835,7 @@ pub fn report_str(t: &AisReportType) -> &'static str {
         AisReportType::VDM => "VDM",
         AisReportType::VDO => "VDO",
         AisReportType::Unknown => "???",
+        _ => "<report type unknown to the harness>",
     }
 }
 
@@ -896,6 +920,7 @@ impl Out {
             Ok(Err(e)) => Out::Err(ErrCat::from(&e)),
             Ok(Ok(AisFragments::Complete(s))) => Out::Complete(Sent::from(&s)),
             Ok(Ok(AisFragments::Incomplete(s))) => Out::Incomplete(Sent::from(&s)),
+            Ok(Ok(_)) => Out::Panic("<result variant unknown to the harness>".to_string()),
         }
     }
     pub fn class(&self) -> &'static str {
